@@ -142,6 +142,8 @@ Record world := {
   w_nodes : list cnode;         (* the curator group's nodes *)
   w_cleader : nat;              (* which node leads the curator group *)
   w_fatal : bool;               (* the curator's sanity check (log.Fatalf in heartbeatLoop) fired *)
+  w_snap : option (nat * mstate); (* a snapshot object raft holds: FSM.Snapshot() was called at this log index and
+                                     serialised the state THEN; Snapshoter.Save() writes those bytes out later *)
   (* ghost history: everything the master ever returned *)
   h_cids : list N;
   h_tsids : list N;
@@ -150,7 +152,7 @@ Record world := {
 
 Definition w_init : world :=
   {| w_log := []; w_reps := [rep0; rep0; rep0]; w_leader := 0%nat; w_mvol := [];
-     w_cur := c_init; w_nodes := [node0; node0; node0]; w_cleader := 0%nat; w_fatal := false;
+     w_cur := c_init; w_nodes := [node0; node0; node0]; w_cleader := 0%nat; w_fatal := false; w_snap := None;
      h_cids := []; h_tsids := []; h_parts := [] |}.
 
 Definition leader_rep (w : world) : replica := nth (w_leader w) (w_reps w) rep0.
@@ -159,7 +161,7 @@ Definition leader_st (w : world) : mstate := r_st (leader_rep w).
 Definition set_master (w : world) (lg : list mcmd) (rs : list replica) (ld : nat) (vol : list (N * N))
            (hc ht : list N) (hp : list (N * N)) : world :=
   {| w_log := lg; w_reps := rs; w_leader := ld; w_mvol := vol;
-     w_cur := w_cur w; w_nodes := w_nodes w; w_cleader := w_cleader w; w_fatal := w_fatal w;
+     w_cur := w_cur w; w_nodes := w_nodes w; w_cleader := w_cleader w; w_fatal := w_fatal w; w_snap := w_snap w;
      h_cids := hc; h_tsids := ht; h_parts := hp |}.
 
 Definition set_vol (w : world) (vol : list (N * N)) : world :=
@@ -167,7 +169,12 @@ Definition set_vol (w : world) (vol : list (N * N)) : world :=
 
 Definition set_curator (w : world) (cs : cstate) (ns : list cnode) (cl : nat) (f : bool) : world :=
   {| w_log := w_log w; w_reps := w_reps w; w_leader := w_leader w; w_mvol := w_mvol w;
-     w_cur := cs; w_nodes := ns; w_cleader := cl; w_fatal := f;
+     w_cur := cs; w_nodes := ns; w_cleader := cl; w_fatal := f; w_snap := w_snap w;
+     h_cids := h_cids w; h_tsids := h_tsids w; h_parts := h_parts w |}.
+
+Definition set_snap (w : world) (sn : option (nat * mstate)) : world :=
+  {| w_log := w_log w; w_reps := w_reps w; w_leader := w_leader w; w_mvol := w_mvol w;
+     w_cur := w_cur w; w_nodes := w_nodes w; w_cleader := w_cleader w; w_fatal := w_fatal w; w_snap := sn;
      h_cids := h_cids w; h_tsids := h_tsids w; h_parts := h_parts w |}.
 
 (* a command proposed on the leader (ProposeIfTerm with the leader's own term), committed and applied there;
@@ -255,7 +262,10 @@ Inductive event :=
 | EvCMonitor (n : nat) (lost : bool)
 | EvCLeader (n : nat)
 | EvCRestart (n : nat)
-| EvDump | EvCDump.
+| EvDump | EvCDump
+| EvSnapTake                       (* raft calls FSM.Snapshot() on the leader: the state is serialised at this index *)
+| EvSnapInstall (j : nat).         (* later: Snapshoter.Save(); follower j (not ahead of it) restores those bytes onto its
+                                      live state and continues replaying the log from the snapshot's index *)
 
 (* ---------- replica events ---------- *)
 Definition ev_catchup (w : world) (j k : nat) : world :=
@@ -298,6 +308,20 @@ Definition ev_failover (w : world) : world :=
   let lr := leader_rep w in
   let r' := {| r_applied := r_applied lr; r_st := restore_into m_init (r_st lr) |} in
   set_master w (w_log w) (upd_nth (w_leader w) r' (w_reps w)) (w_leader w) [] (h_cids w) (h_tsids w) (h_parts w).
+
+Definition ev_snap_take (w : world) : world :=
+  set_snap w (Some (r_applied (leader_rep w), leader_st w)).
+
+Definition ev_snap_install (w : world) (j : nat) : world :=
+  if Nat.eqb j (w_leader w) then w else
+  match nth_error (w_reps w) j, w_snap w with
+  | Some r, Some (idx, s) =>
+      if Nat.leb (r_applied r) idx then
+        let r' := {| r_applied := idx; r_st := restore_into (r_st r) s |} in
+        set_master w (w_log w) (upd_nth j r' (w_reps w)) (w_leader w) (w_mvol w) (h_cids w) (h_tsids w) (h_parts w)
+      else w
+  | _, _ => w
+  end.
 
 (* ---------- curator glue (leader.go) ---------- *)
 Definition cur_node (w : world) (n : nat) : option cnode :=
@@ -460,6 +484,8 @@ Definition step (w : world) (e : event) : world :=
   | EvCRestart n => c_restart w n
   | EvDump => w
   | EvCDump => w
+  | EvSnapTake => ev_snap_take w
+  | EvSnapInstall j => ev_snap_install w j
   end.
 
 Definition run_from (w : world) (evs : list event) : world := fold_left step evs w.
@@ -480,6 +506,12 @@ Definition event_safe (w : world) (e : event) : bool :=
       | None => true
       end
   | EvFailover => install_safe m_init (leader_st w)
+  | EvSnapInstall j =>
+      if Nat.eqb j (w_leader w) then true else
+      match nth_error (w_reps w) j, w_snap w with
+      | Some r, Some (idx, s) => if Nat.leb (r_applied r) idx then install_safe (r_st r) s else true
+      | _, _ => true
+      end
   | _ => true
   end.
 
@@ -538,6 +570,8 @@ Definition decode (op : list Z) : option event :=
   | [10; c] => Some (EvMNewPart (zN c))
   | [11; p] => Some (EvMLookup (zN p))
   | [12] => Some EvDump
+  | [13] => Some EvSnapTake
+  | [14; j] => Some (EvSnapInstall (zn j))
   | [20; n] => Some (EvCStart (zn n))
   | [21; n; l] => Some (EvCRegister (zn n) (zb l))
   | [22; n] => Some (EvCCommitReg (zn n))
@@ -561,7 +595,8 @@ Definition observe (w : world) (e : event) : list Z :=
   let w' := step w e in
   match e with
   | EvCmd c => enc_res (snd (propose w c))
-  | EvCatchup j _ | EvInstall j | EvRestart j => enc_rep (nth j (w_reps w') rep0)
+  | EvCatchup j _ | EvInstall j | EvRestart j | EvSnapInstall j => enc_rep (nth j (w_reps w') rep0)
+  | EvSnapTake => match w_snap w' with Some (idx, _) => [nz idx] | None => [(-2)%Z] end
   | EvLeader _ => nz (w_leader w') :: enc_rep (leader_rep w')
   | EvFailover => enc_mstate (leader_st w')
   | EvMRegCur => enc_res (snd (m_register_curator w))
